@@ -90,6 +90,21 @@ CLAIMS['C14'] = ('other',
     'order in which sub-directories are visited (os.listdir order) - the bounded clauses accept any file named like a '
     'variant; D9 (the fuzzy rule cuts at the first -mib, not at a trailing one) is within what the alias clause allows. '
     'Outside the bounded scopes nothing is claimed.', '5 C14')
+CLAIMS['C20'] = ('other',
+    'mibdump: the region of the script from the try: that configures and runs the compiler to the final sys.exit is '
+    'executed symbolically as it stands (module-level statements wrapped in a synthetic function, nothing rewritten), with '
+    'compile() and buildIndex() replaced by their verified contracts: the script always leaves through sys.exit, the exit '
+    'status is 0 iff no module of the result is missing or failed (79 otherwise, 70 for a library error), every option '
+    'reaches compile() unchanged. The files left in the destination are decided by the writer contracts (C13: no '
+    'temporary file survives, old-or-new content) together with compile()\'s status_iff_written (C07). mibcopy: BOUNDED, '
+    'not proved - the real script is run on every scenario of a small scope (2-3 files of one module with different, equal '
+    'or no revisions, every order of the source arguments, destination empty or stocked, with and without a --mib-source '
+    'repository) and the destination must hold the copy with the latest revision under the module name.',
+    'Not decided: the text of the verbose report lines (filter comprehensions over the same status comparisons as the '
+    'exit status); option parsing (getopt) and usage errors (exit 64); the process boundary. The composition '
+    '"destination holds exactly the modules reported created or borrowed" is the conjunction of C07 status_iff_written '
+    'and the C13 writer postconditions - not stated as one machine-checked lemma. Trusted: getopt, sys.exit, shutil.copy, '
+    'os.walk; getReadersFromUrls through its bounded stand-in (C14).', '5 C20')
 CLAIMS['C13'] = ('proof',
     'FileWriter.putData, PyFileWriter.putData and CallbackWriter.putData are executed symbolically against an OS model '
     'in which every system call may fail (and os.write may fall short) adversarially; atomicity, temp-file cleanup, '
